@@ -9,14 +9,14 @@ def window_lengths(mx):
     for k in range(0, 5):
         for d in range(-14, 15):
             L = k * cap + d
-            if L >= 12:
+            if L >= 4:
                 out.add(L)
     return sorted(out)
 
 
 def cases(tier, seed, PROP='C01'):
-    mxs = [32, 34, 36, 40, 64, 126, 128, 8192, 16384] if tier == 'quick' else \
-        sorted(set(list(range(32, 162, 2)) + [254, 256, 510, 512, 1024, 4096, 8192, 16382, 16384]))
+    mxs = [20, 22, 30, 32, 34, 36, 40, 64, 126, 128, 8192, 16384] if tier == 'quick' else \
+        sorted(set(list(range(20, 162, 2)) + [254, 256, 510, 512, 1024, 4096, 8192, 16382, 16384]))
     idx = 0
     for mx in mxs:
         L = window_lengths(mx)
@@ -57,8 +57,8 @@ def run_case(case, PROP='C01'):
         lengths = case['lengths']
     elif case['kind'] == 'writer-random':
         r = gen.rng(seed, PROP, case['stratum'], case['index'])
-        mx = r.choice([32, 38, 50, 64, 100, 128, 200, 256, 510, 512, 1022, 1024, 2048, 4096, 8192, 16382, 16384]
-                      + [2 * r.randint(16, 256)])
+        mx = r.choice([20, 22, 24, 28, 30, 32, 38, 50, 64, 100, 128, 200, 256, 510, 512, 1022, 1024, 2048, 4096, 8192, 16382, 16384]
+                      + [2 * r.randint(10, 256)])
         cap = mx - 8
         n = r.randint(1, 40)
         lengths = []
@@ -67,17 +67,17 @@ def run_case(case, PROP='C01'):
             if c < 0.5:
                 L = r.randint(0, 4) * cap + r.randint(-14, 14)
             elif c < 0.8:
-                L = r.randint(12, 3 * cap)
+                L = r.randint(4, 3 * cap)
             else:
-                L = r.randint(12, 40)
-            lengths.append(max(12, L))
+                L = r.randint(4, 40)
+            lengths.append(max(4, L))
         ocs = r.choice([mx, mx + 1, mx + 2, 2 * mx - 1, 2 * mx, 3 * mx + 7, 2 ** 16, 2 ** 20])
         run = harness.write_records(mx, _records_for(lengths, mx), output_chunk_size=ocs,
                                     set_identifier=gen.name(r, 'SET', r.choice([3, 10, 59, 60])),
                                     seq=r.choice([1, 2, 9, 10, 99, 100, 999, 1000, 9999]))
     elif case['kind'] == 'e2e':
         r = gen.rng(seed, PROP, case['stratum'], case['index'])
-        mx = r.choice([32, 40, 64, 100, 128, 256, 512, 1024, 8192, 16384])
+        mx = r.choice([20, 24, 32, 40, 64, 100, 128, 256, 512, 1024, 8192, 16384])
         cap = mx - 8
         sp = gen.minimal(mx, rows=r.randint(1, 6), dtype=gen.dtstr(r.choice(gen.DTYPES), r.choice('<>')),
                          width=r.choice([None, 1, 3, cap // 4 + 1, cap + 3]) )
@@ -85,7 +85,7 @@ def run_case(case, PROP='C01'):
         k = len(sp['ops'])
         sp['ops'].append(gen.nf_op('NF' + 'x' * r.randint(0, 6)))
         for j in range(r.randint(0, 8)):
-            n = max(8, r.choice([r.randint(0, 4) * cap + r.randint(-14, 14), r.randint(8, 60)]))
+            n = max(0, r.choice([r.randint(0, 4) * cap + r.randint(-14, 14), r.randint(0, 60)]))
             sp['ops'].append(gen.nf_data_op(k, gen.payload_bytes(r, n, j, r.choice([None, b'\x01', b'\x00\x01']))))
         # many objects in one set -> multi-segment EFLR
         for j in range(r.choice([0, 0, 5, 40])):
